@@ -58,6 +58,9 @@ func rngSame() bool { panic("spec only") }
 // isFresh(x): x is nil or was allocated after function entry.
 func isFresh(x any) bool { panic("spec only") }
 
+// ghostAssert(b) raises a proof obligation from ghost code.
+func ghostAssert(b bool) {}
+
 // ---- lemma functions: the contract is proved from the empty body; ghost code calls them ----
 
 // for 0 <= a <= t the product a*h lies between 0 and t*h
@@ -85,6 +88,43 @@ func specPick(isKeepLH, times, lowNum, highNum IntType) IntType {
 		}
 	}
 	return p
+}
+
+// specCocCand: the value shown by tens digit t (0..10, where a D100 of 100 has t=10) and units digit u; 00 means 100.
+func specCocCand(t, u IntType) IntType {
+	if t == 0 && u == 0 {
+		return 100
+	}
+	return t*10 + u
+}
+
+// candidate contributed by a bonus/penalty die showing 10 (digit 0): only if such a die exists
+func specCocCandOpt(ten bool, u IntType) IntType {
+	if ten {
+		return specCocCand(0, u)
+	}
+	return 1000
+}
+
+func specCocCandOptMax(ten bool, u IntType) IntType {
+	if ten {
+		return specCocCand(0, u)
+	}
+	return -1000
+}
+
+func specMin(a, b IntType) IntType {
+	if a < b {
+		return a
+	}
+	return b
+}
+
+func specMax(a, b IntType) IntType {
+	if a > b {
+		return a
+	}
+	return b
 }
 
 // specLo / specHi: lowest / highest value one shown die can take in the given mode.
@@ -198,6 +238,141 @@ func RollCommon
   ensures [C15] mode == -1 ==> glo == ghi && glo == old(specClamp(1, diceMin, diceMax))
   ensures [C15] mode == 1 ==> glo == ghi && glo == old(specClamp(dicePoints, diceMin, diceMax))
   ensures [C15] mode == 1 || mode == -1 ==> rngSame()
+
+
+func wodCheck
+  props C04
+  requires e != nil
+  assigns Context.Error
+  ensures [C04] result == (1 <= pool && pool <= 20000 && (addLine == 0 || addLine >= 2) && points >= 1 && threshold >= 1)
+  ensures [C04] !result ==> e.Error != nil
+  ensures [C04] result ==> e.Error == old(e.Error)
+
+func doubleCrossCheck
+  props C04
+  requires ctx != nil
+  assigns Context.Error
+  ensures [C04] result == (1 <= pool && pool <= 20000 && addLine >= 2 && points >= 1)
+  ensures [C04] !result ==> ctx.Error != nil
+  ensures [C04] result ==> ctx.Error == old(ctx.Error)
+
+func RollFate
+  props C04 C15
+  assigns rng.pos elem.string
+  ghost var gsum IntType = 0
+  ghost at call 1 Roll: ghostAssert(-1 <= ret-2 && ret-2 <= 1); gsum = gsum + (ret - 2)
+  loop 1
+    invariant 0 <= i && i <= 4
+    invariant sum == gsum
+    invariant IntType(-i) <= sum && sum <= IntType(i)
+    invariant mode == -1 ==> sum == IntType(-i)
+    invariant mode == 1 ==> sum == IntType(i)
+    invariant mode == 1 || mode == -1 ==> rngSame()
+    decreases 4 - i
+  ensures [C04] result0 == gsum
+  ensures [C04 C15] -4 <= result0 && result0 <= 4
+  ensures [C15] mode == -1 ==> result0 == -4
+  ensures [C15] mode == 1 ==> result0 == 4
+  ensures [C15] mode == 1 || mode == -1 ==> rngSame()
+
+func RollCoC
+  props C04 C15
+  requires diceNum >= 0
+  assigns rng.pos elem.string
+  ghost var best IntType = 0
+  ghost var d100 IntType = 0
+  ghost at call 1 Roll: ghostAssert(1 <= ret && ret <= 100); d100 = ret; best = specCocCand(ret/10, ret%10)
+  ghost at call 2 Roll: ghostAssert(1 <= ret && ret <= 10); if isBonus { best = specMin(best, specCocCand(ret%10, d100%10)) } else { best = specMax(best, specCocCand(ret%10, d100%10)) }
+  loop 1
+    invariant 0 <= i && i <= diceNum
+    invariant d100 == diceResult && 1 <= diceResult && diceResult <= 100 && diceTens == diceResult/10 && diceUnits == diceResult%10
+    invariant 0 <= diceMin && diceMin <= diceTens && diceTens <= diceMax && diceMax <= 10
+    invariant diceMin == 0 ==> diceTens == 0
+    invariant diceMax == 10 ==> diceTens == 10
+    invariant isBonus ==> best == specMin(specCocCand(diceMin, diceUnits), specCocCandOpt(num10Exists, diceUnits))
+    invariant !isBonus ==> best == specMax(specCocCand(diceMax, diceUnits), specCocCandOptMax(num10Exists, diceUnits))
+    invariant mode == -1 ==> diceResult == 1 && !num10Exists && diceMin == 0 && (i == 0 ==> diceMax == 0) && diceMax <= 1
+    invariant mode == 1 ==> diceResult == 100 && diceMin == 10 && diceMax == 10
+    invariant mode == 1 || mode == -1 ==> rngSame()
+    decreases int(diceNum - i)
+  ensures [C04] result0 == best
+  ensures [C04 C15] 1 <= result0 && result0 <= 100
+  ensures [C15] mode == -1 ==> result0 == 1
+  ensures [C15] mode == 1 ==> result0 == 100
+  ensures [C15] mode == 1 || mode == -1 ==> rngSame()
+
+func RollWoD
+  props C04 C15
+  requires 1 <= pool && pool <= 20000 && (addLine == 0 || addLine >= 2) && points >= 1 && threshold >= 1
+  assigns rng.pos elem.string
+  ghost var rolled IntType = 0
+  ghost var succ IntType = 0
+  ghost var r0 IntType = 0
+  ghost at loop 1 begin: r0 = rolled
+  ghost at call 1 Roll: ghostAssert(1 <= ret && ret <= points); rolled = rolled + 1; if (isGE && ret >= threshold) || (!isGE && ret <= threshold) { succ = succ + 1 }
+  loop 1
+    invariant 0 <= times && IntType(times) <= rolled
+    invariant rolled <= 1<<61 ==> 1 <= addTimes && times <= addTimes && addTimes <= times+1
+    invariant 0 <= rolled && 0 <= succ && succ <= rolled
+    invariant rolled <= 1<<61 ==> successCount == succ
+    invariant times < addTimes ==> 1 <= pool && pool <= 20000
+    invariant rolled <= 1<<61 && times < addTimes ==> allRollCount == rolled + pool
+    invariant rolled <= 1<<61 && times == addTimes ==> allRollCount == rolled
+    invariant mode == -1 ==> addTimes == 1
+    invariant mode == 1 || mode == -1 ==> rngSame()
+    decreases [C07] addTimes - times
+  loop 2
+    invariant 0 <= i && i <= pool && 0 <= addCount && addCount <= i
+    invariant IntType(times) <= r0
+    invariant rolled == r0 + i && 0 <= succ && succ <= rolled
+    invariant rolled <= 1<<61 ==> successCount == succ
+    invariant mode == -1 ==> addCount == 0
+    invariant mode == 1 || mode == -1 ==> rngSame()
+    decreases int(pool - i)
+  ensures [C04] rolled <= 1<<61 ==> result0 == succ && result1 == rolled
+  ensures [C04] rolled <= 1<<61 ==> result2 == IntType(addTimes) && result2 >= 1
+  ensures [C15] mode == -1 ==> result2 == 1
+  ensures [C15] mode == 1 || mode == -1 ==> rngSame()
+
+func RollDoubleCross
+  props C04 C15
+  requires 1 <= pool && pool <= 20000 && addLine >= 2 && points >= 1
+  assigns rng.pos elem.string
+  ghost var rolled IntType = 0
+  ghost var total IntType = 0
+  ghost var gmax IntType = 0
+  ghost var crit bool = false
+  ghost var r0 IntType = 0
+  ghost at loop 1 begin: r0 = rolled; gmax = 0; crit = false
+  ghost at call 1 Roll: ghostAssert(1 <= ret && ret <= points); rolled = rolled + 1; if ret > gmax { gmax = ret }; if ret >= addLine { crit = true }
+  ghost at loop 2 exit: if crit { total = total + 10 } else { total = total + gmax }
+  loop 1
+    invariant 0 <= times && IntType(times) <= rolled
+    invariant rolled <= 1<<61 ==> 1 <= addTimes && times <= addTimes && addTimes <= times+1
+    invariant 0 <= rolled && 0 <= total && (points <= 1<<20 ==> total <= (1<<20)*rolled)
+    invariant times < addTimes ==> 1 <= pool && pool <= 20000
+    invariant rolled <= 1<<61 && times < addTimes ==> allRollCount == rolled + pool
+    invariant rolled <= 1<<61 && times == addTimes ==> allRollCount == rolled
+    invariant points <= 1<<20 && rolled <= 1<<30 ==> resultDice == total
+    invariant mode == -1 ==> addTimes == 1
+    invariant mode == 1 || mode == -1 ==> rngSame()
+    decreases [C07] addTimes - times
+  loop 2
+    invariant 0 <= i && i <= pool && 0 <= addCount && addCount <= i
+    invariant rolled == r0 + i
+    invariant IntType(times) <= r0
+    invariant crit == (addCount > 0)
+    invariant maxDice == gmax
+    invariant 0 <= gmax && gmax <= points
+    invariant mode == -1 ==> addCount == 0
+    invariant mode == 1 || mode == -1 ==> rngSame()
+    decreases int(pool - i)
+  ensures [C04] points <= 1<<20 && rolled <= 1<<30 ==> result0 == total
+  ensures [C04] rolled <= 1<<61 ==> result1 == rolled
+  ensures [C04] rolled <= 1<<61 ==> result2 == IntType(addTimes) && result2 >= 1
+  ensures [C15] mode == -1 ==> result2 == 1
+  ensures [C15] mode == 1 || mode == -1 ==> rngSame()
+
 
 // ---- lemmas (raw SMT-LIB, proved on every run; expected answer: unsat) ----
 
